@@ -25,6 +25,8 @@ type Case struct {
 	Burst   []string `json:"burst,omitempty"` // call | gated | ping | sopen | sdata | sclose | unknown
 	EOFAt   int      `json:"eof_at,omitempty"`
 	Quiet   bool     `json:"quiet,omitempty"`
+	Unix    bool     `json:"unix,omitempty"`    // burst mode: real unix sockets
+	Poll    bool     `json:"poll,omitempty"`    // burst mode over unix sockets: poll-mode server
 	Pending int      `json:"pending,omitempty"` // client mode: calls pending when the hostile frames arrive
 	Stream  bool     `json:"stream,omitempty"`  // client mode: a stream is open too
 }
@@ -237,6 +239,15 @@ func enum(tier string, yield func(Case)) {
 			_, d := next()
 			yield(Case{Mode: "client", Enc: enc, DirectIO: d, Frames: []string{hx}, Pending: 2, Stream: true, Origin: "constant"})
 		}
+		// disconnect points over real unix sockets, non-poll and poll-mode servers (every 3rd prefix)
+		for _, poll := range []bool{false, true} {
+			for _, m := range modes {
+				for at := 1; at <= 12; at += 3 {
+					b2 := []string{"call", "call", "sopen", "sdata", "call", "ping", "sdata", "call", "unknown", "sclose", "call", "call"}
+					yield(Case{Mode: "burst", Enc: enc, Pipelining: m[0], DirectIO: m[1], Burst: b2, EOFAt: at, Quiet: at%2 == 0, Unix: true, Poll: poll, Origin: "burst-unix"})
+				}
+			}
+		}
 		// disconnect points: a fixed burst, EOF after every prefix, every mode
 		burst := []string{"call", "gated", "sopen", "sdata", "call", "ping", "sdata", "gated", "unknown", "sclose", "call", "call"}
 		for _, m := range modes {
@@ -332,6 +343,11 @@ func gen(t *rapid.T) Case {
 		c.EOFAt = rapid.IntRange(1, n).Draw(t, "eof_at")
 		c.Quiet = rapid.IntRange(0, 3).Draw(t, "quiet") == 0
 		c.Origin = "burst"
+		if rapid.IntRange(0, 3).Draw(t, "unix") == 0 {
+			c.Unix = true
+			c.Poll = rapid.Bool().Draw(t, "poll")
+			c.Origin = "burst-unix"
+		}
 	}
 	return c
 }
@@ -480,6 +496,9 @@ func runBurst(c Case) kit.Outcome {
 	if len(c.Burst) == 0 || len(c.Burst) > 256 || c.EOFAt < 1 || c.EOFAt > len(c.Burst) {
 		return kit.Outcome{Invalid: true}
 	}
+	if c.Unix {
+		return runBurstUnix(c)
+	}
 	env := kit.NewEnv()
 	env.GateWait = 2 * time.Second
 	srv := kit.NewServer(env, c.Pipelining, c.DirectIO)
@@ -561,6 +580,97 @@ func runBurst(c Case) kit.Outcome {
 	}
 	if !c.Quiet {
 		out.Classes = append(out.Classes, "eof-behind-queued-requests")
+	}
+	return out
+}
+
+// burstFrames builds the request headers of a burst prefix.
+func burstFrames(c Case) ([]kit.ReqHeader, bool) {
+	var out []kit.ReqHeader
+	streamSeq, haveStream := uint64(0), false
+	for i, k := range c.Burst[:c.EOFAt] {
+		seq, id := uint64(i+1), uint64(i+1)
+		switch k {
+		case "call":
+			out = append(out, kit.ReqHeader{Seq: seq, Method: kit.Methods[i%4], Args: kit.MakePayload(id, kit.DirEcho, 3, 30)})
+		case "gated":
+			if c.Pipelining {
+				return nil, false
+			}
+			out = append(out, kit.ReqHeader{Seq: seq, Method: kit.Methods[i%4], Args: kit.MakePayload(id, kit.DirGate, 3, 30)})
+		case "unknown":
+			out = append(out, kit.ReqHeader{Seq: seq, Method: "S.Nope", Args: kit.MakePayload(id, kit.DirEcho, 3, 30)})
+		case "ping":
+			out = append(out, kit.ReqHeader{Seq: seq, Upgrade: []byte{kit.RefUpgrade(true, true, true, 0)}})
+		case "sopen":
+			if haveStream {
+				continue
+			}
+			haveStream, streamSeq = true, seq
+			out = append(out, kit.ReqHeader{Seq: seq, Method: "S.Stream", Upgrade: []byte{kit.RefUpgrade(true, true, false, kit.StreamOpen)}})
+		case "sdata":
+			if !haveStream {
+				continue
+			}
+			out = append(out, kit.ReqHeader{Seq: streamSeq, Args: kit.MakePayload(id, kit.DirEcho, 3, 30), Upgrade: []byte{kit.RefUpgrade(false, false, false, kit.StreamData)}})
+		case "sclose":
+			if !haveStream {
+				continue
+			}
+			haveStream = false
+			out = append(out, kit.ReqHeader{Seq: streamSeq, Upgrade: []byte{kit.RefUpgrade(true, true, false, kit.StreamClose)}})
+		default:
+			return nil, false
+		}
+	}
+	return out, true
+}
+
+// runBurstUnix: the burst reaches a real unix-socket server (optionally poll mode) in one write,
+// the disconnect follows at once (or after a quiet moment); another connection is probed.
+func runBurstUnix(c Case) kit.Outcome {
+	reqs, ok := burstFrames(c)
+	if !ok {
+		return kit.Outcome{Invalid: true}
+	}
+	m := kit.Modes{Enc: c.Enc, SrvPipelining: c.Pipelining, SrvDirect: c.DirectIO, Link: "unix", Poll: c.Poll}
+	sess, err := kit.NewSession(m)
+	if err != nil {
+		return kit.Undecided("%v", err)
+	}
+	sess.Env.GateWait = 2 * time.Second
+	defer sess.Close()
+	rc, err := kit.DialRaw("unix", sess.Addr)
+	if err != nil {
+		return kit.Undecided("dial: %v", err)
+	}
+	cli := kit.NewScriptClientOn(rc, c.Enc, nil)
+	cli.SendBatch(reqs)
+	if c.Quiet {
+		time.Sleep(2 * time.Millisecond)
+	}
+	cli.Close()
+	go func() {
+		time.Sleep(500 * time.Microsecond)
+		sess.Env.OpenAll()
+	}()
+	out := kit.Outcome{Sig: "burst-unix", Classes: []string{"burst", "unix-sockets", "enc=" + c.Enc}, Nontrivial: len(reqs) >= 2}
+	if c.Poll {
+		out.Classes = append(out.Classes, "poll")
+	}
+	rc2, err := kit.DialRaw("unix", sess.Addr)
+	if err != nil {
+		o := kit.Fail("other-connection-unserved", "after a burst + disconnect the server no longer accepts connections: %v", err)
+		o.Sig, o.Timing = "burst-unix", true
+		return o
+	}
+	cli2 := kit.NewScriptClientOn(rc2, c.Enc, nil)
+	defer cli2.Close()
+	a2, _, w2 := probe(cli2, probeSeq)
+	if !a2 || w2 != "" {
+		o := kit.Fail("other-connection-unserved", "after a burst + disconnect on one connection a well-formed request on another connection was not served (%s) [unix sockets, poll=%v]", w2, c.Poll)
+		o.Sig, o.Timing = "burst-unix", true
+		return o
 	}
 	return out
 }
@@ -655,7 +765,7 @@ var prop = kit.Property[Case]{
 	Rule:  "enumeration (per header encoder, cycling server modes): hostile constants; every truncation and single-byte corruptions (14 hostile values per position in quick, all 255 in thorough) of a corpus of 8 valid request frames (call, return-style call, unknown method, ping, stream open/data/close, large sequence number) delivered to a real Server, and of 4 valid response frames delivered to a real Conn with pending calls and an open stream; every upgrade byte 0-255 x {known, unknown, stream, return-style method, bare} x {no stream, open stream id, other id}; a 12-request burst (calls, gated handlers, pings, stream traffic) followed by a disconnect after every prefix, quietly or right behind the queued requests, in every non-poll server mode. Plus rapid-generated sequences mixing valid, mutated (truncate/overwrite/insert/delete/bit-flip) and random frames, and random bursts of 1-64 requests with a drawn disconnect point. Oracle: the worker process stays alive (panics in library goroutines kill it; the driver reads the journal, confirms and shrinks), a later well-formed request on the same connection (if the server did not close it) and on another connection is answered correctly. Non-trivial: at least one frame differs from every valid frame and is non-empty, or a burst of >= 2 requests before the disconnect; distinct by SHA-1 of the case.",
 	Assumptions: []string{
 		"frame level only: the length-prefix framing (hslam/socket) is a dependency; its panic on an over-long varint prefix is out of scope",
-		"poll-mode servers need real sockets and are covered by the real-socket variant, not by this enumeration",
+		"poll-mode servers need real sockets: bursts + disconnects are also run over unix sockets against non-poll and poll-mode servers; the frame mutations run against non-poll ServeCodec only",
 	},
 	Gen:            gen,
 	Enum:           enum,
